@@ -357,6 +357,38 @@ class OperatorProgram:
         fn.__name__ = fn.__qualname__ = h['id']
         return fn
 
+    def _make_sync_daemon(self, h):
+        """A synchronous daemon (kopf runs it in an executor thread): it polls its stop flag every `poll` virtual seconds and
+        returns `linger` virtual seconds after it first saw the flag set. Cancellation cannot reach it (there is no way to
+        cancel a thread): only the flag does."""
+        prog = self
+
+        def fn(**kw):
+            stopped = kw['stopped']
+            rec = prog._begin(h, 'daemon', kw)
+            rec['sync'] = True
+            rec['attempt'] = 0
+            rec['behaviour'] = 'sync'
+            seen = None
+            try:
+                while True:
+                    prog.sim.threads.sleep(h.get('poll', 1.0))
+                    if bool(stopped):
+                        if seen is None:
+                            seen = prog._now()
+                            rec['flag_seen'] = seen
+                            rec['flag_set_at'] = seen
+                        if prog._now() - seen >= h.get('linger', 0.0) - 1e-9:
+                            break
+                rec['outcome'] = 'stopped'
+            finally:
+                rec['t1'] = prog._now()
+                rec['seq1'] = prog.sim.world.tick()
+                rec['stopped_reason'] = str(stopped.reason) if getattr(stopped, 'reason', None) is not None else None
+                rec['stopped_set'] = bool(stopped)
+        fn.__name__ = fn.__qualname__ = h['id']
+        return fn
+
     def _make_activity(self, h, kind):
         prog = self
 
@@ -446,7 +478,7 @@ class OperatorProgram:
                             initial_delay=_delay(h.get('initial_delay')),
                             cancellation_backoff=h.get('cancellation_backoff'),
                             cancellation_timeout=h.get('cancellation_timeout'),
-                            cancellation_polling=h.get('cancellation_polling'))(self._make_daemon(h))
+                            cancellation_polling=h.get('cancellation_polling'))(self._make_sync_daemon(h) if h.get('sync') else self._make_daemon(h))
             elif kind == 'timer':
                 kopf.timer(*sel, registry=reg, id=h['id'], **self._common(h), **self._filters(h),
                            interval=h.get('interval'), sharp=h.get('sharp'), idle=h.get('idle'),
